@@ -149,6 +149,41 @@ pub fn vec_index_guarded_ok(a: &Vec<i32>) -> i32 {
     s
 }
 
+/// scan helper in the shape of "index one past the last element equal to xs[start]": callers guard `start < len`
+fn scan_end(xs: &[i32], start: usize) -> usize {
+    let v = xs[start];
+    let mut e = start;
+    while e < xs.len() && xs[e] == v {
+        e += 1;
+    }
+    e
+}
+
+pub fn scan_helper_ok(xs: &[i32]) -> i32 {
+    let mut i = 0;
+    let mut s = 0;
+    while i < xs.len() {
+        let e = scan_end(xs, i);
+        s ^= xs[i..e].len() as i32;
+        i = e;
+    }
+    s
+}
+
+/// the same helper, but its only caller passes an unchecked index: `xs[start]` must be reported
+fn scan_end_bad(xs: &[i32], start: usize) -> usize {
+    let v = xs[start];
+    let mut e = start;
+    while e < xs.len() && xs[e] == v {
+        e += 1;
+    }
+    e
+}
+
+pub fn scan_helper_unguarded(xs: &[i32], i: usize) -> usize {
+    scan_end_bad(xs, i)
+}
+
 pub fn index_unguarded(v: &[i32], i: usize) -> i32 {
     v[i]
 }
